@@ -939,3 +939,69 @@ def rule_length_dispatch(ctx: Ctx, rep: Report, rule: str, module_prefixes: tupl
                                    f"`{norm(c)}`: `{norm(other)}` is not one of the sizes {sorted(admitted)} the value was admitted at -- equal to one of them on some curves only")
     rep.ob(rule, "scanned", True, "btclib:1", f"{n} length dispatches after a multi-size admission in {module_prefixes}")
     rep.floor(rule, floor)
+
+
+def overwritten_flags(fn: ast.AST) -> list[tuple[ast.Assign, str]]:
+    """`v = False` ... `for/while: ... v = <test>` ... `if v:` after the loop, where <test> does not
+    mention v and no break follows the assignment: the last iteration's answer overwrites the others'."""
+    out = []
+    body_nodes = list(own_nodes(fn))
+    inits = {}
+    for a in body_nodes:
+        if isinstance(a, ast.Assign) and len(a.targets) == 1 and isinstance(a.targets[0], ast.Name) and isinstance(a.value, ast.Constant) and a.value.value is False:
+            inits.setdefault(a.targets[0].id, a)
+    for v, init in inits.items():
+        for lp in body_nodes:
+            if not isinstance(lp, (ast.For, ast.While)) or lp.lineno < init.lineno:
+                continue
+            # the flag is initialised outside this loop
+            if any(x is init for x in ast.walk(lp)):
+                continue
+            for a in ast.walk(lp):
+                if not (isinstance(a, ast.Assign) and len(a.targets) == 1 and isinstance(a.targets[0], ast.Name) and a.targets[0].id == v):
+                    continue
+                if isinstance(a.value, ast.Constant) or any(isinstance(x, ast.Name) and x.id == v for x in ast.walk(a.value)):
+                    continue
+                # a break / return / raise right after it (in its own block) makes it the only answer
+                blk = getattr(parent(a), "body", None)
+                sibs = [blk_ for fld in ("body", "orelse", "finalbody") for blk_ in [getattr(parent(a), fld, None)] if isinstance(blk_, list) and any(s_ is a for s_ in blk_)]
+                after = sibs[0][[i for i, s_ in enumerate(sibs[0]) if s_ is a][0] + 1:] if sibs else []
+                if any(isinstance(s_, (ast.Break, ast.Return, ast.Raise)) for s_ in after):
+                    continue
+                # read after the loop
+                end = getattr(lp, "end_lineno", lp.lineno)
+                read_after = any(isinstance(x, ast.Name) and x.id == v and isinstance(x.ctx, ast.Load) and x.lineno > end for x in body_nodes)
+                if read_after:
+                    out.append((a, v))
+    return out
+
+
+_FLAG_SAMPLE = '''
+def f(items):
+    bad = False
+    for x in items:
+        bad = len(x) > 520
+    if bad:
+        raise ValueError
+'''
+
+
+def rule_sticky_flags(ctx: Ctx, rep: Report, rule: str, module_prefixes: tuple[str, ...]) -> None:
+    """A flag raised inside a loop and asked about after it is *accumulated*
+    (`flag |= test`, `flag = flag or test`, `flag = True` under the test): a plain
+    `flag = test` keeps the last iteration's answer and forgets the others --
+    a script whose oversized push is followed by any other push passes a size
+    limit that is enforced nowhere else."""
+    from sa.loader import _set_parents
+    sample = ast.parse(_FLAG_SAMPLE)
+    _set_parents(sample)
+    rep.ob(rule, "selftest:sample", len(overwritten_flags(sample.body[0])) == 1, "rules/sigcommon.py:1", "the detector fires on its own sample (expected count on the tree is zero)")
+    n = 0
+    for q, fi in sorted(ctx.prog.functions.items()):
+        if not any(q.startswith(p_) for p_ in module_prefixes):
+            continue
+        n += 1
+        for a, v in overwritten_flags(fi.node):
+            rep.ob(rule, f"{q}:{v}", False, fi.where(a), f"`{norm(a)[:70]}` inside a loop overwrites `{v}`, which is read after the loop: only the last iteration decides")
+    rep.ob(rule, "scanned", True, "btclib:1", f"{n} functions in {module_prefixes}: every flag read after a loop is accumulated in it")
+    rep.floor(rule, 2)
